@@ -244,8 +244,10 @@ def run(ctx):
     ep = prog.method("energy::props::EnergyProps", "convert::From", "from")
     esc = Scope(prog, ep)
     # the `is_tenv` this indicator filters on is the envelope membership of the statement (the truth table C11 decides, evaluated here too)
-    from .c11 import check_envelope_membership
+    from .c11 import check_envelope_membership, check_floor_either_side
     check_envelope_membership(ctx, prog, ep, esc, rule="c09.scope")
+    # V is the sum of floor area x net height over the envelope's spaces: the floor area must find the floor from either side (the rule C11 owns)
+    check_floor_either_side(ctx, prog, rule="c09.volume")
     from .c06 import local_defs
     co = local_defs(esc, "c_o_100")
     ctx.require(len(co) == 1, "EnergyProps::from: c_o_100 not found")
